@@ -50,6 +50,7 @@ from .values import (
     SReal,
     SStr,
     CompDictV,
+    LazyDictV,
     SymListV,
     SymSet,
     Unit,
@@ -369,7 +370,7 @@ def isinst(I, v, cls):
         return name == "list"
     if isinstance(v, ListV):
         return name == "list"
-    if isinstance(v, (DictV, MapV)):
+    if isinstance(v, (DictV, MapV, LazyDictV)):
         return name == "dict"
     if isinstance(v, SetV):
         return name == ("frozenset" if v.frozen else "set")
@@ -423,6 +424,10 @@ def length(I, v, node=None):
         return mk_int(z3.If(zint(d) > 0, zint(d), z3.IntVal(0)))
     if isinstance(v, ItemsView):
         return length(I, v.d, node)
+    if isinstance(v, LazyDictV):
+        from . import lazydict
+
+        return lazydict.length(I, v)
     if isinstance(v, ObjV):
         f, _ = v.cls.lookup("__len__")
         if f is not None:
@@ -451,6 +456,16 @@ def iterate(I, v, node=None):
         for p in list(v.pairs):
             yield p[0]
         return
+    if isinstance(v, LazyDictV):
+        v = ItemsView(v, "keys")
+    if isinstance(v, ItemsView) and isinstance(v.d, LazyDictV):
+        from . import lazydict
+
+        seq = lazydict.items_seq(I, v.d, v.kind, node)
+        if isinstance(seq, list):
+            yield from seq
+            return
+        raise OutsideSubset(f"iteration over {v.kind}() of a dict with unbounded contents without a loop contract at {I.where(node)}")
     if isinstance(v, ItemsView):
         d = v.d
         if isinstance(d, DictV):
@@ -698,11 +713,21 @@ def identical(I, a, b):
             return eq(I, a, b)
         return False
     if is_intlike(a) and is_intlike(b):
-        # identity of ints is modelled as equality (CPython small-int caching aside);
-        # the repository uses `is` on ints only to guard a log message
+        # identity of ints: enum members are singletons; CPython caches -5..256; any other
+        # two equal ints may or may not be the same object (a constant and a value decoded
+        # from the wire are not) -- both outcomes are explored
         if isinstance(a, EnumV) != isinstance(b, EnumV):
             return False
-        return eq(I, a, b)
+        e = eq(I, a, b)
+        if isinstance(a, EnumV):
+            return e
+        if e is False or (not isinstance(e, bool) and not I.ctx.decide(e)):
+            return False
+        ta = int_term(a)
+        small = (-5 <= ta <= 256) if isinstance(ta, int) else I.ctx.decide(z3.And(zint(ta) >= -5, zint(ta) <= 256))
+        if small:
+            return True
+        return I.ctx.choose(2) == 0
     if isinstance(a, Opaque) and isinstance(b, Opaque):
         return eq(I, a, b)
     return a is b
@@ -720,6 +745,10 @@ def contains(I, container, x, node=None):
         return z3.Select(container.arr, zint(int_term(x)))
     if isinstance(container, MapV):
         return map_contains(I, container, x)
+    if isinstance(container, LazyDictV):
+        from . import lazydict
+
+        return lazydict.contains(I, container, x, node)
     if isinstance(container, ItemsView) and container.kind == "keys":
         return contains(I, container.d, x, node)
     if isinstance(container, str) and isinstance(x, str):
@@ -1076,6 +1105,15 @@ def getitem(I, obj, idx, node=None):
         return dict_getitem(I, obj, idx, node)
     if isinstance(obj, MapV):
         return map_getitem(I, obj, idx, node)
+    if isinstance(obj, LazyDictV):
+        from . import lazydict
+
+        return lazydict.getitem(I, obj, idx, node)
+    if isinstance(obj, ItemsView) and isinstance(obj.d, LazyDictV):
+        from . import lazydict
+
+        seq = lazydict.items_seq(I, obj.d, obj.kind, node)
+        return getitem(I, ListV(seq) if isinstance(seq, list) else seq, idx, node)
     if isinstance(obj, SeqV):
         return seq_getitem(I, obj, idx, node)
     if isinstance(obj, SymListV):
@@ -1111,6 +1149,10 @@ def setitem(I, obj, idx, value, node=None):
         return
     if isinstance(obj, MapV):
         return map_setitem(I, obj, idx, value, node)
+    if isinstance(obj, LazyDictV):
+        from . import lazydict
+
+        return lazydict.setitem(I, obj, idx, value, node)
     raise OutsideSubset(f"item assignment on {type(obj).__name__} at {I.where(node)}")
 
 
@@ -1148,6 +1190,10 @@ def delitem(I, obj, idx, node=None):
         return
     if isinstance(obj, MapV):
         return map_delitem(I, obj, idx, node)
+    if isinstance(obj, LazyDictV):
+        from . import lazydict
+
+        return lazydict.delitem(I, obj, idx, node)
     raise OutsideSubset("del on " + type(obj).__name__)
 
 
@@ -1294,7 +1340,7 @@ def map_delitem(I, m, key, node=None):
 
 
 def value_getattr(I, obj, name, node):
-    if isinstance(obj, (ListV, SymListV, CompDictV, DictV, SetV, SBytes, BytearrayV, SStr, str, tuple, MapV, SeqV, LoggerV, LockV, StructV, ItemsView, CoroV, bytes, int, SInt)):
+    if isinstance(obj, (ListV, SymListV, CompDictV, LazyDictV, DictV, SetV, SBytes, BytearrayV, SStr, str, tuple, MapV, SeqV, LoggerV, LockV, StructV, ItemsView, CoroV, bytes, int, SInt)):
         if isinstance(obj, StructV):
             if name == "size":
                 return obj.size
@@ -1460,6 +1506,34 @@ def call_method(I, obj, name, args, kwargs, node):
             return None
     if isinstance(obj, MapV):
         return I.ghost.map_method(obj, name, args, kwargs, node)
+    if isinstance(obj, LazyDictV):
+        from . import lazydict
+
+        if name == "get":
+            e = lazydict.lookup(I, obj, args[0], node)
+            if e[2]:
+                return e[1]
+            return args[1] if len(args) > 1 else kwargs.get("default")
+        if name == "pop":
+            e = lazydict.lookup(I, obj, args[0], node)
+            if e[2]:
+                v = e[1]
+                e[1], e[2] = None, False
+                return v
+            if len(args) > 1:
+                return args[1]
+            I.throw("KeyError", args[0], node=node)
+        if name in ("items", "keys", "values"):
+            return ItemsView(obj, name)
+        if name == "clear":
+            lazydict.clear(I, obj)
+            return None
+        if name == "setdefault":
+            e = lazydict.lookup(I, obj, args[0], node)
+            if not e[2]:
+                e[1], e[2] = (args[1] if len(args) > 1 else None), True
+            return e[1]
+        raise OutsideSubset(f"dict.{name} on a dict with unbounded contents")
     if isinstance(obj, SetV):
         if name == "add":
             set_add(I, obj, args[0], node)
@@ -1767,6 +1841,13 @@ def instantiate_special(I, cls, args, kwargs, node):
         if not args:
             return ListV()
         v = args[0]
+        if isinstance(v, LazyDictV):
+            v = ItemsView(v, "keys")
+        if isinstance(v, ItemsView) and isinstance(v.d, LazyDictV):
+            from . import lazydict
+
+            seq = lazydict.items_seq(I, v.d, v.kind, node)
+            v = ListV(seq) if isinstance(seq, list) else seq
         if isinstance(v, SeqV) and not isinstance(v.n, int):
             return I.ghost.list_of_seq(v, node)
         return ListV(list(iterate(I, v, node)))
